@@ -6,7 +6,7 @@ ModbusSerClientProtocol (RTU framing, FIFO manager) attached to a recording
 transport; no reactor runs.  Events: issue a request, deliver the reply of ANY
 outstanding request (any order; alone or two replies in one chunk), deliver a
 duplicate of an already delivered reply, deliver an unsolicited reply (unused id),
-lose the connection, issue after the loss.  The transaction-id counter starts at 0
+lose the connection (also after a local close()), issue after the loss.  The transaction-id counter starts at 0
 and at 0xFFFD so that the 16-bit wrap happens inside the history.
 Oracle: every deferred fires at most once and with the reply carrying the id written
 for it; outstanding ids are pairwise distinct; unsolicited / duplicate replies change
@@ -64,6 +64,7 @@ class World(object):
         self.delivered = set()
         self.escaped = []
         self.connected = True
+        self.closed_locally = False
 
     def framing(self):
         return 'tcp' if self.variant == 'tcp' else 'rtu'
@@ -98,6 +99,9 @@ class World(object):
             used = set(r['wire_tid'] for r in self.reqs)
             tid = next(t for t in (0x7777, 0x7778, 0x7779, 0x777A, 0x777B, 0x777C) if t not in used)
             self.p.dataReceived(adu.build('tcp', self.units[0], pdu.encode(dict(kind='rsp', fc=3, registers=[0xDEAD])), tid=tid))
+        elif kind == 'close':
+            self.closed_locally = True
+            self.p.close()                      # the application closes the client; the transport then reports the loss
         elif kind == 'lose':
             self.connected = False
             self.p.connectionLost('connection lost (injected)')
@@ -113,7 +117,7 @@ class World(object):
     def canon(self):
         tm = self.p.transaction
         pend = tuple(sorted(tm.transactions)) if isinstance(tm.transactions, dict) else len(tm.transactions)
-        return (self.connected, self.p._connected, tm.tid, pend,
+        return (self.connected, self.closed_locally, self.p._connected, tm.tid, pend,
                 tuple((r['wire_tid'], tuple(r['events']), r['after_loss'], i in self.delivered) for i, r in enumerate(self.reqs)),
                 bytes(self.p.framer._buffer), len(self.escaped))
 
@@ -140,6 +144,8 @@ def menu(w, max_out, max_req):
                 if len(out) > 1:
                     ev.append(('rep2', out[0], out[1]))
         ev.append(('lose',))
+        if not w.closed_locally:
+            ev.append(('close',))
     return ev
 
 
